@@ -333,11 +333,15 @@ class TorchShim:
         return a
 
 
-def mha_bytes(D, C, size, elemtype="MET_SHORT", compress=False, tm_key="TransformMatrix", off_key="Offset"):
+def mha_bytes(D, C, size, elemtype="MET_SHORT", compress=False, tm_key="TransformMatrix", off_key="Offset", msb=None):
     """a well-formed MetaImage with position-coded header values and payload (form written by ITK and by the library)"""
     n = int(np.prod(size)) * C
-    payload = np.arange(n).astype(M.META_IMAGE_TYPES[elemtype]).tobytes()
-    lines = ["ObjectType = Image", f"NDims = {D}", "BinaryData = True", "BinaryDataByteOrderMSB = False",
+    payload = np.arange(n).astype(M.META_IMAGE_TYPES[elemtype])
+    if msb:
+        payload = payload.astype(payload.dtype.newbyteorder(">"))
+    payload = payload.tobytes()
+    order = [f"{msb} = True"] if msb else ["BinaryDataByteOrderMSB = False"]
+    lines = ["ObjectType = Image", f"NDims = {D}", "BinaryData = True"] + order + [
              f"CompressedData = {compress}"]
     if compress:
         payload = zlib.compress(payload, level=2)
@@ -438,6 +442,18 @@ def gen_meta_reader():
     for name, ty in M.META_IMAGE_TYPES.items():
         rows.append(f"(\"{name}\"%string, {NPTY[np.dtype(ty).name]})")
     emit("Definition gen_meta_types : list (string * npty) :=\n  " + coq_list(rows) + ".")
+    # big-endian files (BinaryDataByteOrderMSB / ElementByteOrderMSB = True): position-coded payload must come back in order
+    rows = []
+    for key in ("BinaryDataByteOrderMSB", "ElementByteOrderMSB"):
+        for C in (1, 2):
+            for comp in (False, True):
+                try:
+                    data, kw = trace_meta_read(3, C, SMALL, compress=comp, msb=key)
+                    ok = np.asarray(data).reshape(-1).tolist() == trace_meta_read(3, C, SMALL, compress=comp)[0].reshape(-1).tolist()
+                except Exception:  # noqa
+                    ok = False
+                rows.append(f"((\"{key}\"%string, {C}%nat, {'true' if comp else 'false'}), {'true' if ok else 'false'})")
+    emit("Definition gen_meta_r_msb : list ((string * nat * bool) * bool) :=\n  " + coq_list(rows) + ".")
     # payload order samples
     rows = []
     for D in (2, 3):
@@ -823,6 +839,19 @@ def gen_sitk():
                         raise TraceError("Grid.from_sitk direction entry is not a signed selection")
                 rows.append(coq_list(rr))
             emit(f"Definition gen_sitk_r_direction_{D} (t : list K) : list (list K) :=\n  match t with {pat_vec('t', D * D)} => {coq_list(rows)} | _ => [] end.")
+        # data without channel dimension (write_image accepts data.ndim == grid.ndim for the native formats)
+        same = True
+        for D in (2, 3):
+            try:
+                SK.write_sitk_image(coded(tuple(reversed(SMALL[:D]))), CodedGrid(D, SMALL[:D], dirm[D]), "x.nrrd", compress=False)
+                i0 = cap["image"]
+                SK.write_sitk_image(coded((1,) + tuple(reversed(SMALL[:D]))), CodedGrid(D, SMALL[:D], dirm[D]), "x.nrrd", compress=False)
+                i1 = cap["image"]
+                same = same and i0.GetSize() == i1.GetSize() and i0.GetNumberOfComponentsPerPixel() == 1 and \
+                    np.array_equal(sitk.GetArrayFromImage(i0), sitk.GetArrayFromImage(i1)) and i0.GetDirection() == i1.GetDirection()
+            except Exception:  # noqa
+                same = False
+        emit(f"Definition gen_sitk_w_nochannel_same_as_c1 : bool := {'true' if same else 'false'}.")
     finally:
         SK._write_image = real_w
     # payload samples: image_from_tensor (buffer order of the sitk image) and tensor_from_image
